@@ -833,7 +833,9 @@ func (g *gossipRun) waitFresh() {
 		cs.mtx.RLock()
 		same := rs.Height == cs.Height && rs.Round == cs.Round && rs.Step == cs.Step && rs.Proposal == cs.Proposal &&
 			rs.ProposalBlockParts == cs.ProposalBlockParts && rs.Votes == cs.Votes && rs.LastCommit == cs.LastCommit &&
-			rs.ProposalBlock == cs.ProposalBlock
+			rs.ProposalBlock == cs.ProposalBlock && rs.TriggeredTimeoutPrecommit == cs.TriggeredTimeoutPrecommit &&
+			rs.LockedRound == cs.LockedRound && rs.LockedBlock == cs.LockedBlock && rs.ValidRound == cs.ValidRound &&
+			rs.ValidBlock == cs.ValidBlock && rs.CommitRound == cs.CommitRound
 		cs.mtx.RUnlock()
 		if same {
 			return
